@@ -70,10 +70,25 @@ def enclose(check, proj):
             A.deep_facts = True
             A.time_budget = 60.0
             missing = [t for t in tg if t not in loc or not ctx.dom.is_value(loc[t])]
-            if missing:
-                check.undecided("WAVE-ENCLOSE", f.qualname, "wave-speed estimate(s) %s named by the property's anchors not found among the locals" % missing, f.loc())
-                continue
             lat = ctx.dom.lattice
+            if missing:
+                # the estimates are not held in locals of those names (renamed, hoisted with a factor, moved to a
+                # helper): they are then looked for among the min / max values the flux builds -- the MAXIMAL
+                # ones (not operands of a larger min / max of the same kind)
+                byname = {}
+                for kind, nm in ((("max", "cmax"),) if tg == ("cmax",) else (("min", "sL"), ("max", "sR"))):
+                    nodes = [(k, info) for k, info in lat.items() if info[0] == kind]
+                    top = []
+                    for k, info in nodes:
+                        keys = {A.key(e) for e in info[1]}
+                        if not any(k2 != k and keys < {A.key(e) for e in i2[1]} for k2, i2 in nodes):
+                            top.append(info)
+                    byname[nm] = top
+                if not all(byname.values()):
+                    check.undecided("WAVE-ENCLOSE", f.qualname, "wave-speed estimate(s) %s named by the property's anchors not found among the locals, and the flux builds no %s of candidate speeds" % (missing, "maximum" if not byname.get("cmax", True) or not byname.get("sR", True) else "minimum"), f.loc())
+                    continue
+            else:
+                byname = None
             zero = A.const(0)
             vocab = {"0": zero, "unL-cL": unL - cL, "unL+cL": unL + cL, "unR-cR": unR - cR, "unR+cR": unR + cR,
                      "|unL|+cL": A.abs(unL) + cL, "|unR|+cR": A.abs(unR) + cR}
@@ -93,6 +108,16 @@ def enclose(check, proj):
             else:
                 wants = [("min", "sL", ["unL-cL"]), ("max", "sR", ["unR+cR"])]
             for kind, nm, need in wants:
+                if byname is not None:
+                    # any of the maximal candidates sets may be the estimate: the one that encloses, if any
+                    cands = byname[nm]
+                    hit = [i for i in cands if all(w in classify(i[1]) for w in need)]
+                    if hit:
+                        for w in need:
+                            check.ok("WAVE-ENCLOSE", f.qualname, "the flux builds a %s over a set of speeds containing the one-sided speed %s (estimate not held in a local named %s): the wave fan encloses the one-sided characteristic for all states" % (kind, w, nm), f.loc())
+                    else:
+                        check.undecided("WAVE-ENCLOSE", f.qualname, "no %s built by the flux contains %s, and no local named %s identifies the estimate" % (kind, need, nm), f.loc())
+                    continue
                 val = loc[nm]
                 info = lat.get(A.key(val))
                 if info is None or info[0] != kind:
